@@ -285,6 +285,8 @@ def plane_capsule(
       b = wp.vec3(0.0, 1.0, 0.0)
     else:
       b = wp.vec3(0.0, 0.0, 1.0)
+    # the fallback axis is not orthogonal to the normal of a tilted plane
+    b = wp.normalize(b - n * wp.dot(n, b))
 
   c = wp.cross(n, b)
   frame = wp.mat33(n[0], n[1], n[2], b[0], b[1], b[2], c[0], c[1], c[2])
